@@ -21,6 +21,7 @@ type (
 		args     *orderedMap
 		rawArgs  respArray
 		multi    bool
+		txnDsc   *dataStoreCommand // while EXEC runs this queued command: the command object that owns EXEC's data store
 	}
 	cmdHandler func(ctx *cmdContext, args map[string]any) (respValue, error)
 
